@@ -36,8 +36,8 @@ CHECKS = {
          "Trusted: numpy reference; under-sampled spline intervals are skipped and counted; one common kcal/kJ unit factor per fmatch case is fitted within [4.184/4.1868, 1] (C20 judges the constant itself).",
          "DESIGN.md §5 C06"),
  "C07": ("exploration",
-         "runtime monitoring: Richardson-extrapolated central differences of the reported value, gradient-sum, rigid-motion and periodic-image invariance monitors, D2F symmetry, tabulated-potential comparison; real library under ASan/UBSan",
-         "IBond/IAngle/IDihedral gradients, LJ126/LJG/CBSPL parameter derivatives and Cubic/Akima/Lin spline derivatives are evaluated on ~6e4 (quick) / 3e6 (thorough) generated geometries, parameter vectors and data sets and compared with numerical derivatives of the value the same object reports. Held-on-observed.",
+         "runtime monitoring: Richardson-extrapolated central differences of the reported value, gradient-sum, rigid-motion and periodic-image invariance monitors, D2F symmetry, tabulated-potential comparison; real library under ASan/UBSan; concurrent part: 2..8 threads on private objects compared bit for bit with the serial run (ASan/UBSan build) and the same part under ThreadSanitizer",
+         "IBond/IAngle/IDihedral gradients, LJ126/LJG/CBSPL parameter derivatives and Cubic/Akima/Lin spline derivatives are evaluated on ~6e4 (quick) / 3e6 (thorough) generated geometries, parameter vectors and data sets and compared with numerical derivatives of the value the same object reports. Held-on-observed. A concurrent part (private objects per thread, results bit-identical to the serial call sequences; asan and tsan flavours) covers hidden shared state.",
          "Trusted: finite-difference oracle with its own error estimate (cases whose estimate is too large are skipped and counted); singular geometries excluded by the margins in DESIGN §5 C07.",
          "DESIGN.md §5 C07"),
  "C08": ("exploration",
@@ -46,8 +46,8 @@ CHECKS = {
          "Trusted: per-format precision model; names compared as far as the format stores them; time stamps not judged; known findings listed in known_findings.json (LAMMPS tilt factors, pdb triclinic box, table error column).",
          "DESIGN.md §5 C08"),
  "C09": ("exploration",
-         "runtime monitoring: the real DavidsonSolver (xtp TU compiled stand-alone, ASan for sizes <= 200, -O2 above) on generated symmetric / BSE-form matrices and matrix-free operators, judged against dense Eigen diagonalisation (order, normalisation, orthogonality, recomputed residual, lowest roots, status honesty, bounded progress in iterations)",
-         "559 (quick) / 6255 (thorough) solves over sizes 2..1000, neigen 1..size/4, all 24 combinations of correction x update size x tolerance, search-space limits forcing restarts, clustered/degenerate/negative/wide spectra, HAM mode; a fixed deterministic set of adversarial instances runs on every invocation under its own keys (known findings). Held-on-observed on the randomised families.",
+         "runtime monitoring: the real DavidsonSolver (xtp TU compiled stand-alone, ASan for sizes <= 200, -O2 above) on generated symmetric / BSE-form matrices and matrix-free operators, judged against dense Eigen diagonalisation (order, normalisation, orthogonality, recomputed residual, lowest roots, status honesty, bounded progress in iterations); omp-env family: the same oracles under OpenMP environments that deliver fewer threads than omp_get_max_threads() (thread limit, dynamic adjustment, solve() inside parallel regions)",
+         "559 (quick) / 6255 (thorough) solves over sizes 2..1000, neigen 1..size/4, all 24 combinations of correction x update size x tolerance, search-space limits forcing restarts, clustered/degenerate/negative/wide spectra, HAM mode; a fixed deterministic set of adversarial instances runs on every invocation under its own keys (known findings). Held-on-observed on the randomised families. Matrix-free operators are additionally solved under seven OpenMP environments.",
          "Trusted: Eigen dense solvers as oracle; the progress clause is judged only with the default search-space limit; randomised families are those for which the 'lowest roots' clause held over a multi-seed soak, adversarial instances are fixed (DESIGN §5 C09).",
          "DESIGN.md §5 C09"),
  "C14": ("exploration",
@@ -56,13 +56,13 @@ CHECKS = {
          "Trusted: private tree thresholds read in the harness TU only; sign convention of the field term recorded in DESIGN §5 C14; QMCalculator pieces needing libint2 are stubbed in the harness for kmccalculator.cc.",
          "DESIGN.md §5 C14"),
  "C15": ("exploration",
-         "runtime monitoring: symmetry / rigid-motion invariance monitors and an explicit point-charge-cluster Coulomb oracle (Richardson-extrapolated cluster size) for the real eeInteractor on generated Static/PolarSite objects; field = dE/dmu by finite differences; Thole tensor relations; ASan/UBSan",
-         "2.4e4 (quick) / 1e6 (thorough) site pairs over separations 0.5..100 bohr, all rank combinations 0/1/2 x 0/1/2, moments over 4 orders of magnitude. Held-on-observed.",
+         "runtime monitoring: symmetry / rigid-motion invariance monitors and an explicit point-charge-cluster Coulomb oracle (Richardson-extrapolated cluster size) for the real eeInteractor on generated Static/PolarSite objects; field = dE/dmu by finite differences; Thole tensor relations; ASan/UBSan; sites restored from checkpoints, already polarised sites, segment-level rotations, the matrix-free dipole-dipole operator under 2..8 OpenMP threads",
+         "2.4e4 (quick) / 1e6 (thorough) site pairs over separations 0.5..100 bohr, all rank combinations 0/1/2 x 0/1/2, moments over 4 orders of magnitude. Held-on-observed. Restored, polarised and segment-level variants of the clauses are included.",
          "Trusted: the point-charge cluster construction of dipoles and traceless quadrupoles; tolerances from the measured extrapolation error (worst 3e-9 x scale vs 5e-7 allowed).",
          "DESIGN.md §5 C15"),
  "C17": ("exploration",
-         "runtime monitoring: write/close/reopen/read histories on real HDF5 checkpoint files through CheckpointFile/Writer/Reader (bit-identity by memcmp incl. -0.0, denormals, inf, NaN payloads; shapes; overwrite sequences; unwritten names; READ-level files byte-identical after refused writes); ASan/UBSan, one process per edge family",
-         "3.4e4 (quick) / 1e6 (thorough) evaluations over all supported kinds, nested group paths and overwrite histories; edge families (different-shape / different-kind overwrite, empty shapes, pre-filled destinations) have their own keys (known findings for the missing delete-then-create). Held-on-observed.",
+         "runtime monitoring: write/close/reopen/read histories on real HDF5 checkpoint files through CheckpointFile/Writer/Reader (bit-identity by memcmp incl. -0.0, denormals, inf, NaN payloads; shapes; overwrite sequences; unwritten names; READ-level files byte-identical after refused writes); ASan/UBSan, one process per edge family; second writable handle on a READ-level file, padded row types, compact layout, sessions through symbolic links",
+         "3.4e4 (quick) / 1e6 (thorough) evaluations over all supported kinds, nested group paths and overwrite histories; edge families (different-shape / different-kind overwrite, empty shapes, pre-filled destinations) have their own keys (known findings for the missing delete-then-create). Held-on-observed. Handle combinations, table layouts and symbolic links are part of the histories.",
          "Trusted: system HDF5 1.10; a read into a fresh destination from a fresh handle is what 'bit-identical' is judged on.",
          "DESIGN.md §5 C17"),
  "C20": ("exploration",
@@ -81,18 +81,18 @@ CHECKS = {
          "Trusted: tolerances scaled by data magnitude and grid spacing; periodic end conditions judged for interpolating splines (for fits only observed).",
          "DESIGN.md §5 C12"),
  "C13": ("exploration",
-         "runtime monitoring: shadow-histogram reference model updated per processed value (nearest centre, half-step acceptance, modulo wrap), weight conservation and normalisation monitors; the memory half is decided by ASan + Eigen index assertions + UBSan float-cast-overflow on the real code (own build of the two TUs with -fno-builtin-floor); csg_density on unwrapped coordinates; abort-prone families run in their own processes",
-         "1.7e6 (quick) / 1.1e7 (thorough) processed values over (min,max,nbins) incl. nbins=1, values on bin edges (either outcome accepted), far outside the range up to +-1e300, exact negative multiples of the period, negative weights, periodic and not; legacy Histogram auto-range and bond/angle scalings on all-sign data. Held-on-observed.",
+         "runtime monitoring: shadow-histogram reference model updated per processed value (nearest centre, half-step acceptance, modulo wrap), weight conservation and normalisation monitors; the memory half is decided by ASan + Eigen index assertions + UBSan float-cast-overflow on the real code (own build of the two TUs with -fno-builtin-floor); csg_density on unwrapped coordinates; abort-prone families run in their own processes; csg_boltzmann sessions (sequences of hist/tab set commands, option listings parsed after every command) judged by an independent model of the legacy histogram",
+         "1.7e6 (quick) / 1.1e7 (thorough) processed values over (min,max,nbins) incl. nbins=1, values on bin edges (either outcome accepted), far outside the range up to +-1e300, exact negative multiples of the period, negative weights, periodic and not; legacy Histogram auto-range and bond/angle scalings on all-sign data. Held-on-observed. csg_boltzmann is driven with random command sequences.",
          "Trusted: the shadow model; values within the rounding band of a bin edge are don't-care; normalisation judged for non-negative contents.",
          "DESIGN.md §5 C13"),
  "C16": ("exploration",
-         "runtime monitoring: reference BFS / union-find oracles and random relabelling (sparse large ids, random bead and edge insertion orders) against the real BeadStructure / graph algorithms; exhaustive enumeration of all simple graphs up to 6 vertices; ASan/UBSan",
-         "All 208 isomorphism classes up to 6 vertices x relabellings, structured classes up to 12 vertices, random graphs up to 60 vertices (2.8e3 quick / 4.6e4 thorough graph x relabelling cases): equivalence under relabelling, inequivalence after a name/mass change, shortest-path distances, components as partitions, reduce+expand lossless, single-network detection. Exhaustive for <= 6 vertices, sampled above.",
+         "runtime monitoring: reference BFS / union-find oracles and random relabelling (sparse large ids, random bead and edge insertion orders) against the real BeadStructure / graph algorithms; exhaustive enumeration of all simple graphs up to 6 vertices; ASan/UBSan; interleaved explorations through the public stepping API and concurrent explorations on private objects (ASan/UBSan and ThreadSanitizer builds) compared with sequential runs",
+         "All 208 isomorphism classes up to 6 vertices x relabellings, structured classes up to 12 vertices, random graphs up to 60 vertices (2.8e3 quick / 4.6e4 thorough graph x relabelling cases): equivalence under relabelling, inequivalence after a name/mass change, shortest-path distances, components as partitions, reduce+expand lossless, single-network detection. Exhaustive for <= 6 vertices, sampled above. Interleaved and concurrent explorations must equal the sequential ones.",
          "Trusted: the reference BFS/union-find; fresh BeadStructure per monitor (the library leaves exploration labels in the graph it returns).",
          "DESIGN.md §5 C16"),
  "C18": ("exploration",
-         "runtime monitoring: dynamic-programming glob matcher as reference for tools::wildcmp (exhaustive over {a,b,*,?} x {a,b} up to length 6/7, random longer), direct enumeration oracle for RangeParser with a 1e6-step budget (non-termination is a verdict), print->parse round trip, malformed inputs, xtp IndexParser and BeadList selection; ASan/UBSan",
-         "2e6 (quick) / 9.4e7 (thorough) evaluations; the [-6,6]^3 begin:stride:end window and the small-alphabet pattern space are enumerated completely; forms whose status the statement leaves open (1::5, empty blocks) are observation counters only.",
+         "runtime monitoring: dynamic-programming glob matcher as reference for tools::wildcmp (exhaustive over {a,b,*,?} x {a,b} up to length 6/7, random longer), direct enumeration oracle for RangeParser with a 1e6-step budget (non-termination is a verdict), print->parse round trip, malformed inputs, xtp IndexParser and BeadList selection; ASan/UBSan; registered and reader-built topologies with wildcard characters in bead types, Topology::RenameMolecules and the xml <rename range> against an independent range expansion",
+         "2e6 (quick) / 9.4e7 (thorough) evaluations; the [-6,6]^3 begin:stride:end window and the small-alphabet pattern space are enumerated completely; forms whose status the statement leaves open (1::5, empty blocks) are observation counters only. Bead selection also runs on reader-built topologies; RenameMolecules is driven with the range generator.",
          "Trusted: the DP matcher and the enumeration oracle; budget-limited iteration runs in a way that a hang cannot take the run down.",
          "DESIGN.md §5 C18"),
  "C19": ("exploration",
@@ -101,13 +101,13 @@ CHECKS = {
          "Trusted: closed-form oracle in python; values within the scripts' positivity-threshold band are don't-care; table_smooth judged by local-average relations (its help gives no formula).",
          "DESIGN.md §5 C19"),
  "C05": ("exploration",
-         "runtime monitoring: controlled scheduler over hook events (context-bounded exhaustive DFS enumeration for small configurations + seeded uniform/PCT/run-to-block/starve schedules) with online monitors (exclusion, exactly-once frames, merge order, real-deadlock verdict) + free-running csg_stat/csg_reupdate under ThreadSanitizer and ASan with seeded delays and offline event-log checker; outputs compared with --nt 1",
-         "The real CsgApplication (test subclass in-process; csg_stat, csg_partial_rdf, csg_reupdate and csg_orientcorr as executables) is run under thousands of distinct thread interleavings chosen by a scheduler that owns every lock/unlock/start/join/reader/merge hook point, plus a systematic part: every interleaving with at most k preemptions of 16 (quick) / 20 (thorough) small configurations is enumerated by depth-first search over the scheduler decisions; monitors over the event stream decide reader/merge exclusion, each-frame-once-in-order, merge order, join-before-EndEvaluate and deadlock (no enabled thread = verdict, not timeout); merged logs / output files are compared with the single-thread run; TSan watches the free-running executables. Beyond the context-bounded small configurations interleavings are sampled, not enumerated.",
+         "runtime monitoring: controlled scheduler over hook events (context-bounded exhaustive DFS enumeration for small configurations + seeded uniform/PCT/run-to-block/starve schedules) with online monitors (exclusion, exactly-once frames, merge order, real-deadlock verdict) + free-running csg_stat/csg_reupdate under ThreadSanitizer and ASan with seeded delays and offline event-log checker; outputs compared with --nt 1; executables include H5MD trajectories and the shipped threaded template; the real pthread mutex behind tools::Mutex is probed after every Lock/Unlock",
+         "The real CsgApplication (test subclass in-process; csg_stat, csg_partial_rdf, csg_reupdate and csg_orientcorr as executables) is run under thousands of distinct thread interleavings chosen by a scheduler that owns every lock/unlock/start/join/reader/merge hook point, plus a systematic part: every interleaving with at most k preemptions of 16 (quick) / 20 (thorough) small configurations is enumerated by depth-first search over the scheduler decisions; monitors over the event stream decide reader/merge exclusion, each-frame-once-in-order, merge order, join-before-EndEvaluate and deadlock (no enabled thread = verdict, not timeout); merged logs / output files are compared with the single-thread run; TSan watches the free-running executables. Beyond the context-bounded small configurations interleavings are sampled, not enumerated. Executable families: csg_stat (dump, H5MD), csg_reupdate, csg_orientcorr, csg_partial_rdf and the shipped template_threaded.cc.",
          "Trusted: hook placement (guarded by VOTCA_VERIF, commits in hooks.source_commits), the scheduler's mirror of mutex state, TSan with token-ring hand-over annotated as release/acquire and mutex-misuse reports off (the lock-in-one-thread/unlock-in-another idiom is not forbidden by the property). --begin not exercised.",
          "DESIGN.md §5 C05"),
  "C10": ("fault_enumeration",
-         "runtime monitoring: offline exactly-once/no-loss/no-overwrite checker over per-execution ledgers (unique nonces) of multi-process x multi-thread runs of the real ProgObserver; pause points inside the critical section via hooks; crash-at-byte-N enumeration by an interposed write(); restart-pattern waves; ThreadSanitizer for thread-only runs",
-         "Histories of the real ProgObserver<std::vector<Job>>/Job I/O code driven by a stub calculator from 1..6 processes x 1..4 threads on one job file are recorded at the client boundary (start/done events with unique nonces) and judged offline against the parsed final job file; a process is held at hook points inside the load-merge-assign-write section while another synchronises; the process is killed after every byte offset of job-file and backup writes (exhaustive for the small configurations, sampled in the quick tier), also in its second synchronisation after a peer process has reported results in between (crash_peer), and job-file-or-backup completeness plus recovery are judged; restart patterns are run as a second wave and concurrently with a live worker. Sampled interleavings, enumerated crash points.",
+         "runtime monitoring: offline exactly-once/no-loss/no-overwrite checker over per-execution ledgers (unique nonces) of multi-process x multi-thread runs of the real ProgObserver; pause points inside the critical section via hooks; crash-at-byte-N enumeration by an interposed write(); restart-pattern waves; ThreadSanitizer for thread-only runs; the thread pool and worker loop are the real ParallelXJobCalc (parallelxjobcalc.cc compiled unchanged, libint2 initialise/finalise stubbed)",
+         "Histories of the real ProgObserver<std::vector<Job>>/Job I/O code driven by a stub calculator from 1..6 processes x 1..4 threads on one job file are recorded at the client boundary (start/done events with unique nonces) and judged offline against the parsed final job file; a process is held at hook points inside the load-merge-assign-write section while another synchronises; the process is killed after every byte offset of job-file and backup writes (exhaustive for the small configurations, sampled in the quick tier), also in its second synchronisation after a peer process has reported results in between (crash_peer), and job-file-or-backup completeness plus recovery are judged; restart patterns are run as a second wave and concurrently with a live worker. Sampled interleavings, enumerated crash points. The workers are started and joined by the real ParallelXJobCalc::Evaluate.",
          "Trusted: the stub replicates the 12-line worker loop of ParallelXJobCalc::JobOperator::Run (that TU needs libint2); crash model is process kill at write() granularity; ledger written with O_APPEND single writes; Python ElementTree as the parseability oracle.",
          "DESIGN.md §5 C10"),
 }
